@@ -1,4 +1,5 @@
 import OsuProofs.RotationST
+import OsuProofs.RotationField
 /-
 C09 — source terms, roughness and stress are invariant under joint rotation.
 
@@ -102,5 +103,38 @@ theorem solver_congruence (F G : ℝ → ℝ) (h : ∀ x, F x = G x) (cfg : Solv
   rw [this]
 
 example : rotE (N := 4) 1 (fun j => (j : ℕ)) 0 = 3 := by simp [rotE]
+
+/-- **whole field, ST4 wind input**: for every frequency grid, wavenumber table, depth and parameter set,
+the model's `st4Input` of the jointly rotated (spectrum, wind) is the rotated field -/
+theorem wind_input_field_rotates (p : GenP ℝ) (θ0 : ℝ) (om df : List ℝ) (kin : Kin ℝ) (rows : List (Fin N → ℝ))
+    (w : Wind ℝ) (z0 : ℝ) (k : Fin N) :
+    st4Input rfloor p (uniformGrid (N := N) θ0 om df) kin (fieldOf (rotField k rows))
+        { w with dirDeg := w.dirDeg + (k : ℕ) * dθ N } z0
+      = (st4Input rfloor p (uniformGrid (N := N) θ0 om df) kin (fieldOf rows) w z0).map
+          (fun row => List.ofFn (rotE k (fun j : Fin N => row.getD j 0))) := by
+  rw [st4Input_field_rot, st4Input_field]
+  simp only [fieldOf, rotField, List.map_map]
+  apply List.map_congr_left
+  intro r _
+  simp only [Function.comp]
+  congr 1
+  funext j
+  simp [rotE]
+
+/-- **whole field, ST6 dissipation**: the field of the rotated spectrum is the rotated field — the
+per-frequency coefficients depend on the spectrum only through direction integrals -/
+theorem st6_field_rotates (sp : St6P ℝ) (θ0 : ℝ) (om df : List ℝ) (kin : Kin ℝ) (rows : List (Fin N → ℝ)) (k : Fin N) :
+    st6Dissipation sp (uniformGrid (N := N) θ0 om df) kin (fieldOf (rotField k rows))
+      = (st6Dissipation sp (uniformGrid (N := N) θ0 om df) kin (fieldOf rows)).map
+          (fun row => List.ofFn (rotE k (fun j : Fin N => row.getD j 0))) := by
+  obtain ⟨coef, h0, hk⟩ := st6_field_rot sp θ0 om df kin rows k
+  rw [hk, h0]
+  simp only [fieldOf, rotField, List.map_map]
+  apply List.map_congr_left
+  intro r _
+  simp only [Function.comp]
+  congr 1
+  funext j
+  simp [rotE]
 
 end Osu.Props.C09
